@@ -2447,6 +2447,12 @@ bool mmd_engine_has_metadata(mmd_engine * e, size_t * end) {
 		// Already parsed
 		doc = old_root;
 	} else {
+		// Discard metadata gathered by an earlier scan -- it is about to be
+		// gathered again, and the text may have changed since
+		while (e->metadata_stack->size) {
+			meta_free(stack_pop(e->metadata_stack));
+		}
+
 		// Store stack sizes
 		temp = mmd_engine_create(NULL, 0);
 
@@ -2804,6 +2810,12 @@ void mmd_engine_update_metavalue_for_key(mmd_engine * e, const char * key, const
 
 	d_string_free(temp, true);
 	free(clean);
+
+	// The text has changed: forget the old values and offsets, so that the
+	// next query scans the metadata again
+	while (e->metadata_stack->size) {
+		meta_free(stack_pop(e->metadata_stack));
+	}
 }
 
 
